@@ -152,6 +152,10 @@ impl<'a> WireFormat<'a> for SVCB<'a> {
     where
         Self: Sized,
     {
+        if data.len() < *position + 2 {
+            return Err(crate::SimpleDnsError::InsufficientData);
+        }
+
         let priority = u16::from_be_bytes(data[*position..*position + 2].try_into()?);
         *position += 2;
 
@@ -159,10 +163,17 @@ impl<'a> WireFormat<'a> for SVCB<'a> {
         let mut params = BTreeMap::new();
         let mut previous_key = -1;
         while *position < data.len() {
+            if data.len() < *position + 4 {
+                return Err(crate::SimpleDnsError::InsufficientData);
+            }
+
             let key = u16::from_be_bytes(data[*position..*position + 2].try_into()?);
             let value_length = usize::from(u16::from_be_bytes(
                 data[*position + 2..*position + 4].try_into()?,
             ));
+            if data.len() < *position + 4 + value_length {
+                return Err(crate::SimpleDnsError::InsufficientData);
+            }
             if i32::from(key) <= previous_key {
                 return Err(crate::SimpleDnsError::InvalidDnsPacket);
             }
